@@ -26,10 +26,11 @@ from .c02 import payload_of_actisense
 
 LEVEL = "translation_validation"
 EPS = Fraction(1, 10 ** 9)
+LOOKUPS: dict = {}
 
 
 def blank(k):
-    return {"k": k, "neg": False, "mag": [], "cls": "zero"}
+    return {"k": k, "neg": False, "mag": [], "cls": "zero", "s": ""}
 
 
 def num_desc(v, res: Fraction, off: Fraction):
@@ -48,13 +49,13 @@ def num_desc(v, res: Fraction, off: Fraction):
         cls = "lt"
     else:
         cls = "gt"
-    return {"k": "num", "neg": fl < 0, "mag": bits_of(abs(fl)), "cls": cls}
+    return {"k": "num", "neg": fl < 0, "mag": bits_of(abs(fl)), "cls": cls, "s": ""}
 
 
 def code_desc(v):
     if not isinstance(v, int) or isinstance(v, bool):
         return blank("free")
-    return {"k": "code", "neg": v < 0, "mag": bits_of(abs(v)), "cls": "zero"}
+    return {"k": "code", "neg": v < 0, "mag": bits_of(abs(v)), "cls": "zero", "s": ""}
 
 
 def req_of(fdb: dict, rawf: dict, fld) -> dict:
@@ -72,7 +73,9 @@ def req_of(fdb: dict, rawf: dict, fld) -> dict:
             return blank("free")
         return num_desc(fld.raw_value, frac(rawf["Resolution"]), Fraction(0))
     if t == "LOOKUP":
-        return code_desc(fld.raw_value) if fld.raw_value is not None else blank("free")
+        if fld.raw_value is not None:
+            return code_desc(fld.raw_value)
+        return dict(blank("name"), s=fld.value) if isinstance(fld.value, str) else blank("free")
     if t == "DATE":
         if fld.raw_value is None and fld.value is None:
             return blank("na")
@@ -85,7 +88,7 @@ def req_of(fdb: dict, rawf: dict, fld) -> dict:
         if fld.value is None or (isinstance(fld.value, float) and not math.isfinite(fld.value)):
             return blank("free")
         try:
-            return {"k": "bits", "neg": False, "mag": bits_of(struct.unpack("<I", struct.pack("<f", fld.value))[0]), "cls": "zero"}
+            return {"k": "bits", "neg": False, "mag": bits_of(struct.unpack("<I", struct.pack("<f", fld.value))[0]), "cls": "zero", "s": ""}
         except (OverflowError, struct.error):
             return blank("nonfinite")
     return blank("free")
@@ -125,6 +128,10 @@ def variations(fdb: dict, rawf: dict, rng: random.Random, tier: str):
                 ("too-wide", "raw_value", full + 1), ("too-wide+", "raw_value", (full + 1) * 3 + 1), ("negative", "raw_value", -1)]
         if t == "DATE":
             out.append(("absent", "both", None))
+        if t == "LOOKUP":
+            names = list(dict.fromkeys(LOOKUPS.get(fdb["lookup"], {}).values()))
+            pick = names if (tier == "thorough" or len(names) <= 10) else names[:4] + names[-3:] + rng.sample(names[4:-3], 3)
+            out += [(f"name:{nm}", "name", nm) for nm in pick] + [("name:unknown", "name", "no such entry")]
     elif t == "RESERVED":
         full = (1 << n) - 1
         out += [("zero", "value", 0), ("allones", "value", full), ("too-wide", "value", full + 1), ("negative", "value", -1)]
@@ -156,6 +163,8 @@ def bind(chk: Check, tier: str, seed: int):
     from nmea2000.encoder import NMEA2000Encoder
     wd = workdir("C09")
     db, raw = load_db(wd)
+    LOOKUPS.clear()
+    LOOKUPS.update(db["lookups"])
     raw_by_id = {p["Id"]: p for p in raw["PGNs"]}
     rng = random.Random(seed)
     dec, enc = NMEA2000Decoder(), NMEA2000Encoder()
@@ -187,6 +196,8 @@ def bind(chk: Check, tier: str, seed: int):
                 m2 = copy.deepcopy(msg)
                 if attr == "both":
                     m2.fields[i].value = m2.fields[i].raw_value = None
+                elif attr == "name":
+                    m2.fields[i].value, m2.fields[i].raw_value = v, None
                 else:
                     setattr(m2.fields[i], attr, v)
                     if attr == "raw_value" and f["type"] in ("TIME", "DURATION", "DATE"):
@@ -217,7 +228,8 @@ def bind(chk: Check, tier: str, seed: int):
                 # one finding per generator-template branch (field type) and request class, not per generated site
                 key = f"{v['c']}/{d['fields'][v['f'] - 1]['type']}:{'negative' if cls == 'negative' else 'too-wide'}"
             else:
-                key = f"{v['c']}/{did}/{vf}:{cls}" if vf == fid else f"{v['c']}/{did}/{vf}:when-{fid}-{cls}"
+                kcls = "name" if cls.startswith("name:") else cls
+                key = f"{v['c']}/{did}/{vf}:{kcls}" if vf == fid else f"{v['c']}/{did}/{vf}:when-{fid}-{kcls}"
             chk.violation(key,
                           f"{did}: request {fid}={cls} encoded to {bytes(recs[i]['e']).hex()} (base {bytes(recs[i]['base']).hex()}); field {vf}: {v['c']}",
                           {"def": did, "field": fid, "class": cls, "encoded": bytes(recs[i]["e"]).hex(),
